@@ -633,6 +633,20 @@ func report(run *CheckRun, wall float64, selfOK bool, selfNotes []string) int {
 	for _, k := range known {
 		fmt.Println(k)
 	}
+	// vacuity guards refuted on this run that the committed baseline does not
+	// list: reported loudly (a contradictory assumption upstream makes every
+	// obligation below it pass), not counted as a property violation
+	if b, err := os.ReadFile(filepath.Join(verifDir, "expected_dead.txt")); err == nil {
+		base := map[string]bool{}
+		for _, l := range strings.Split(string(b), "\n") {
+			base[strings.TrimSpace(l)] = true
+		}
+		for _, c := range refutedCovers {
+			if !base[c] {
+				fmt.Printf("NOTE vacuity-guard newly refuted (not in expected_dead.txt): %s\n", c)
+			}
+		}
+	}
 	for _, n := range selfNotes {
 		fmt.Println("selftest:", n)
 	}
@@ -767,7 +781,8 @@ func cmdLock(args []string) int {
 		slow := map[string]bool{}
 		generated := map[string]bool{} // every contract-kind obligation generated, discharged or not
 		for s := 0; s < *runs; s++ {
-			run := runProperty(eng, p, "quick", s*7+1, 0)
+			// no 30 s retries while locking: an obligation that needs one is too slow to claim
+			run := runPropertyFiltered(eng, p, "quick", s*7+1, 0, nil, false)
 			for _, it := range run.Items {
 				if it.contract && it.Kind != "cover" {
 					generated[it.Name] = true
@@ -833,6 +848,11 @@ func cmdLock(args []string) int {
 		}
 		lock[p] = names
 		fmt.Printf("%s: locked %d obligations\n", p, len(names))
+		// written after every property: a long lock run can be interrupted
+		if err := writeLock(lock); err != nil {
+			fmt.Println(err)
+			return 2
+		}
 	}
 	if err := writeLock(lock); err != nil {
 		fmt.Println(err)
